@@ -10,6 +10,7 @@
 4. the recorded calls are validated by TLC against TraceFiniteDiff.tla.
 """
 import json
+import math
 import os
 import random
 import re
@@ -250,6 +251,102 @@ def reject_events(H, rng):
     return evs
 
 
+def scan_events(H, tier, seed):
+    """NON-dyadic steps and positions exactly k steps from a bound: rounding in x +- k*dx must not push an evaluation
+    outside the bounds (not even by an ulp), and the result stays the derivative of a cubic"""
+    rng = np.random.default_rng(seed)
+    evs = []
+    dxs = [0.1, 0.3, 1e-3, 7e-5, 3.3, 1e-7] if tier == "quick" else [0.1, 0.3, 0.7, 1e-2, 1e-3, 7e-5, 1e-5, 3.3, 47.0, 1e-7]
+    bnds = [0.0, 0.37, -2.1, 1000.7] if tier == "quick" else [0.0, 0.37, -2.1, 1000.7, 1e-3, -1e5 + 0.3, 12345.678]
+    for acc in (2, 4):
+        for n in (1, 2):
+            cases = oob = bad = 0
+            worst = 16
+            for dx in dxs:
+                for b in bnds:
+                    for side in ("lower", "upper"):
+                        for k in range(0, 5):
+                            for rep in range(1 if tier == "quick" else 3):
+                                bb = b * (1 + (rep and rng.uniform(-0.3, 0.3)))
+                                x = bb + k * dx if side == "lower" else bb - k * dx
+                                bounds = (bb, np.inf) if side == "lower" else (-np.inf, bb)
+                                if not (bounds[0] <= x <= bounds[1]):
+                                    continue
+                                c = rng.normal(size=4)
+                                # the exactness class of the row that applies here: (#points - 1), found with a probe call
+                                probe = []
+                                try:
+                                    H.derivative(lambda t: (probe.append(np.ravel(np.asarray(t, float))), np.zeros_like(np.asarray(t, float)))[1], x, n=n, order=acc, bounds=bounds, dx=dx)
+                                except Exception:
+                                    pass
+                                npts = len(np.unique(np.concatenate(probe))) if probe else 2
+                                c[min(npts, 4):] = 0.0
+                                x0 = x
+                                calls = []
+
+                                def f(t, c=c, x0=x0, calls=calls):
+                                    t = np.asarray(t, float)
+                                    calls.append(t.copy())
+                                    u = (t - x0) / dx
+                                    return c[0] + c[1] * u + c[2] * u * u + c[3] * u**3
+
+                                try:
+                                    r = float(np.asarray(H.derivative(f, x, n=n, order=acc, bounds=bounds, dx=dx)).ravel()[0])
+                                except Exception:
+                                    r = float("nan")
+                                allp = np.concatenate([np.ravel(t) for t in calls]) if calls else np.array([x])
+                                cases += 1
+                                oob += int(np.sum((allp < bounds[0]) | (allp > bounds[1])))
+                                exact = c[1] / dx if n == 1 else 2 * c[2] / dx**2
+                                if not np.isfinite(r):
+                                    bad += 1
+                                else:
+                                    # conditioning: values of size ~|c| at points whose spacing is known to ~eps*|x|/dx
+                                    cond = (np.sum(np.abs(c)) * 30 / dx**n) * max(1.0, abs(x) / dx * 1e-3)
+                                    worst = min(worst, quant.digits(abs(r - exact) / cond))
+            evs.append({"e": "Scan", "acc": acc, "n": n, "cases": cases, "oob": oob, "nonfinite": bad, "d": worst})
+    return evs
+
+
+def derivT_events(tier, seed):
+    """EffectivePotential.derivT: the temperature derivative is bounded below by T = 0 (one-sided stencils next to it)"""
+    import WallGo
+
+    rng = np.random.default_rng(seed + 5)
+    evs = []
+    for scale, err in ((1.0, 1e-10), (50.0, 1e-15), (0.01, 1e-8)):
+        a = rng.normal(size=5)
+        a[4] = 0.0                  # the rows next to a bound have four points: exact on cubics in T
+        seen = []
+
+        class Pot(WallGo.EffectivePotential):
+            fieldCount = 1
+            effectivePotentialError = err
+
+            def evaluate(self, fields, temperature):
+                T = np.asarray(temperature, float)
+                seen.append(float(np.min(T)))
+                u = T / scale
+                phi = np.asarray(WallGo.Fields(fields).getField(0), float)
+                return (a[0] + a[1] * u + a[2] * u**2 + a[3] * u**3 + a[4] * u**4) * (1.0 + phi**2)
+
+        pot = Pot()
+        pot.configureDerivatives(WallGo.VeffDerivativeSettings(temperatureVariationScale=scale, fieldValueVariationScale=[1.0]))
+        dT = scale * err ** (1 / 5)
+        worst, neg = 16, False
+        Ts = [0.0, 0.3 * dT, dT, 1.7 * dT, 2.0 * dT, 2.5 * dT, 10 * dT, 1000 * dT]
+        for T in Ts + [np.array(Ts)]:
+            seen.clear()
+            got = np.asarray(pot.derivT(WallGo.Fields((0.5,)), T), float).ravel()
+            Tv = np.atleast_1d(np.asarray(T, float))
+            u = Tv / scale
+            exact = (a[1] + 2 * a[2] * u + 3 * a[3] * u**2 + 4 * a[4] * u**3) / scale * 1.25
+            neg = neg or (min(seen) < 0.0)
+            worst = min(worst, quant.digits(np.max(np.abs(got - exact)) / (np.sum(np.abs(a)) * 1.25 * (1 + np.max(u)) ** 4 / dT)) if got.shape == exact.shape else -1)
+        evs.append({"e": "DerivT", "scaleExp": int(round(math.log10(scale))), "negT": bool(neg), "d": worst, "n": len(Ts) + 1})
+    return evs
+
+
 def build_traces(tier, seed, cases):
     from WallGo import helpers as H
 
@@ -278,6 +375,8 @@ def build_traces(tier, seed, cases):
     for i in range(0, len(gh), 8):
         traces.append({"id": f"gradhess_{i // 8}", "ev": gh[i:i + 8], "cell": {"kind": "gradhess"}})
     traces.append({"id": "reject", "ev": reject_events(H, rng), "cell": {"kind": "reject"}})
+    traces.append({"id": "scan_nondyadic", "ev": scan_events(H, tier, seed), "cell": {"kind": "scan"}})
+    traces.append({"id": "derivT_near_zero", "ev": derivT_events(tier, seed), "cell": {"kind": "derivT"}})
     return traces
 
 
